@@ -836,7 +836,7 @@ def residual_variant(t):
     return None
 
 
-def event_graph(fn, role_of, ret_local=0, max_states=40000, branch_role=None, stmt_role=None):
+def event_graph(fn, role_of, ret_local=0, max_states=40000, branch_role=None, stmt_role=None, history=False):
     """Quotient of the CFG on event blocks.
     role_of(term) -> role string or None for call terminators.
     branch_role(fn, bb, origin) -> role for switch terminators that are events themselves (their value labels the out-edges).
@@ -844,7 +844,10 @@ def event_graph(fn, role_of, ret_local=0, max_states=40000, branch_role=None, st
     Edge labels: the outcome of the *source* event as decided by switches on its result before the
     next event: comma-joined values e.g. '1' / '0' / 'else'; '' when no switch on the result intervenes.
     Return nodes carry the abstract value last assigned to _0 on the path: constant, 'ev:<role>' when
-    it is (a copy of) an event result, 'var:<name>', 'agg:<Adt::Variant>' or '?'"""
+    it is (a copy of) an event result, 'var:<name>', 'agg:<Adt::Variant>' or '?'
+    history=True: an event node is identified by its block *and* the branch decisions taken so far (a place tested once
+    is not tested again on the same path, so what follows a later event can depend on an earlier outcome; without the
+    history those continuations would all hang off one node)."""
     g = EventGraph()
     ev_blocks = {}
     for b, t in fn.calls():
@@ -859,6 +862,8 @@ def event_graph(fn, role_of, ret_local=0, max_states=40000, branch_role=None, st
                 r = branch_role(fn, b, switch_pred(fn, b))
                 if r is not None:
                     br_roles[b] = r
+    def _nk(bb_, decided_):
+        return (bb_, repr(sorted(repr(x) for x in decided_))) if history else bb_
     start = ("ENTRY", frozenset(), "", None, frozenset(), frozenset())
     later = mentioned_later(fn)
     work = [(0, start)]
@@ -885,7 +890,7 @@ def event_graph(fn, role_of, ret_local=0, max_states=40000, branch_role=None, st
             if stmt_role is not None:
                 r = stmt_role(fn, bb, s)
                 if r is not None:
-                    node = ("ev", bb * 1000 + si, r)
+                    node = ("ev", _nk(bb * 1000 + si, decided), r)
                     g.add(src, label, node)
                     src, label, aliases = node, "", set()
             if s.k != "assign" or s.rv is None:
@@ -963,7 +968,7 @@ def event_graph(fn, role_of, ret_local=0, max_states=40000, branch_role=None, st
             if rv_ is not None and t.dest.local not in mut_borrowed(fn):
                 kb = kb | {(t.dest.local, ("variant", rv_[1])), (t.dest.local, ("abs", "agg:%s" % rv_[0]))}
         if bb in ev_blocks:
-            node = ("ev", bb, ev_blocks[bb])
+            node = ("ev", _nk(bb, decided), ev_blocks[bb])
             g.add(src, label, node)
             nal = set()
             if t.dest is not None and t.dest.is_local():
@@ -990,7 +995,7 @@ def event_graph(fn, role_of, ret_local=0, max_states=40000, branch_role=None, st
                         if str(lab) == follow:
                             work.append((tgt, (src, frozenset(aliases), label, retv, decided, kb)))
                     continue
-                node = ("ev", bb, br_roles[bb])
+                node = ("ev", _nk(bb, decided), br_roles[bb])
                 g.add(src, label, node)
                 for lab, tgt in switch_edges(fn, bb):
                     nd = decided | {(pk, str(lab))} if pk is not None else decided
